@@ -79,7 +79,34 @@ func runC14(c *sim.Ctx) *sim.Violation {
 	t := c.T
 	cfg := specCfg(c)
 	cfg.NoHuge = true
+	// two strings with the same 32-bit hash, for this run: they turn up as
+	// user-property keys / topics of DIFFERENT frames of the history
+	var collA, collB []byte
+	collN := 0
 	newFrame := func() []byte {
+		if t.Bool(1, 14) {
+			if collA == nil {
+				collA, collB, _ = (&gen.G{T: t}).Colliding()
+			}
+			key := collA
+			if collN%2 == 1 {
+				key = collB
+			}
+			collN++
+			var a *ref.AP
+			if t.Bool(1, 2) {
+				a = &ref.AP{Type: ref.Publish, Topic: key, Payload: []byte{byte(collN)}}
+			} else {
+				typ := []byte{ref.PubAck, ref.Disconnect, ref.ConnAck, ref.SubAck}[t.Int(4)]
+				a = &ref.AP{Type: typ, Flags: ref.ReservedFlags(typ), PacketID: 9, Form: 2, Props: []ref.Prop{{ID: 0x26, K: key, V: []byte{byte('0' + collN%10)}}}}
+				if typ == ref.SubAck {
+					a.Codes = []byte{0}
+				}
+			}
+			c.Count("probe.hash-colliding-strings-in-different-frames-of-one-history")
+			f, _ := ref.Encode(a)
+			return f
+		}
 		if t.Bool(1, 12) {
 			// remaining length 0: type 0 with any flags, PINGREQ, PINGRESP, DISCONNECT,
 			// AUTH - frames for which a decoder could hand out one shared object
